@@ -60,6 +60,26 @@ def coq_make(targets=None, timeout=1500):
         return rc == 0, out + out2
 
 
+def header_targets(pid):
+    """the .vo files of every EPG module the case files of property `pid` import (harness headers): they need not be
+    dependencies of Props/<pid>.v, and a stale .vo would make the correspondence evaluate an old model"""
+    names = set()
+    for f in (os.path.join(VERIF, "props", pid.lower() + ".py"), os.path.join(VERIF, "vlib", "prog.py"),
+              os.path.join(VERIF, "vlib", "dprog.py"), os.path.join(VERIF, "vlib", "tie.py")):
+        try:
+            txt = open(f).read()
+        except OSError:
+            continue
+        for m in re.finditer(r"From EPG Require Import ([A-Za-z0-9_ ]+)\.", txt):
+            names |= set(m.group(1).split())
+    out = []
+    for n in sorted(names):
+        for root in ("Base", "Model", "Spec", "Proofs", "Gen"):
+            if os.path.exists(os.path.join(COQ, root, n + ".v")):
+                out.append("%s/%s.vo" % (root, n))
+    return out
+
+
 def coqc(path, timeout=600):
     rc, out = sh(["timeout", str(timeout), "coqc"] + COQ_FLAGS + [path], cwd=COQ, timeout=timeout + 30)
     return rc, out
@@ -175,7 +195,7 @@ class Ctx:
                 self.failed_obligations.append("translator: " + msg)
                 self.notes["translator_error"] = msg
         target = props_file[:-2] + ".vo"
-        ok, out = coq_make([target] + list(extra_targets))
+        ok, out = coq_make([target] + list(extra_targets) + header_targets(pid))
         self.cov["checker_cmd"] = "coq_makefile -f _CoqProject -o Makefile && make -j%d %s (coqc 8.16.1, full .vo) ; coqc %s (Print Assumptions)" % (NPROC, target, props_file)
         names = theorem_names(os.path.join(COQ, props_file))
         self.obligation_names = names
@@ -209,7 +229,7 @@ class Ctx:
         """terms: list of Gallina bool terms. Returns list of bool (None if the shard failed)."""
         files = []
         for ci in range(0, len(terms), chunk):
-            path = os.path.join(CASES, "%s_%s_%d.v" % (self.pid, tag, ci // chunk))
+            path = os.path.join(CASES, "%s_%s_p%d_%d.v" % (self.pid, tag, os.getpid(), ci // chunk))   # unique per process: concurrent runs of one check must not collide
             with open(path, "w") as f:
                 f.write(header + "\n")
                 f.write("Definition verdicts : list bool := [\n  ")
